@@ -147,12 +147,36 @@ SUB_BUILDERS = {
 }
 
 
-def mask_kind(fn, cid):
+def _single_init(fn, d):
+    init = None
+    for n in fn.all_nodes():
+        k = n.get('k')
+        if k == 'decl':
+            for v in n['vars']:
+                if v['d'] == d:
+                    init = v.get('init') if isinstance(v.get('init'), int) else None
+        elif k == 'assign' or (k == 'unop' and n.get('op') in ('++', '--')) or (k == 'call' and n.get('op') in ('=', '|=', '&=')):
+            t = n.get('lhs', n.get('sub', n.get('recv')))
+            r = fn.sn(t) if t is not None else None
+            if r is not None and r.get('k') == 'var' and r.get('d') == d:
+                return None
+    return init
+
+
+def mask_kind(fn, cid, _depth=0):
     """Kind K if the expression is `<entity mask> & osm_entity_bits::K` (either operand order), else None.
     Returns (kind, mask operand id)."""
     n = fn.sn(cid)
     if n is None:
         return None
+    if n.get('k') == 'var' and n.get('vk') == 'local' and _depth < 2:
+        # `const bool want = mask & K; if (want)`: look through a local that is initialised once and never written again
+        init = _single_init(fn, n['d'])
+        return mask_kind(fn, init, _depth + 1) if init is not None else None
+    if n.get('k') == 'cast' and 'sub' in n:
+        return mask_kind(fn, n['sub'], _depth)
+    if n.get('k') == 'binop' and n.get('op') == '!=' and fn.const_value(n['rhs']) == 0:
+        return mask_kind(fn, n['lhs'], _depth)
     ops = None
     if n.get('k') == 'call' and n.get('q') == 'osmium::osm_entity_bits::operator&' and len(n.get('args', [])) == 2:
         ops = n['args']
